@@ -38,7 +38,7 @@ RULE = ('three layers. (1) exact: the ADC delay table of every probe generation 
         '(3) the property stated directly on the real code (oracles, independent of the model): zero median/mean per group, groups = per group for car/kfilt/fk, '
         'agc product, exclusion of label-3 channels, >= 40 dB attenuation of ADC-skewed band-limited stripes (burst and stationary, 1-15 sinusoids, AP 0.4-12 kHz and '
         'LFP 5-250 Hz, NP1 / NP2x1 / NP2x4 / NPultra, k-filter and median, with outside / dead channels) and >= 90 % retention of spikes on 1 or 3 neighbouring channels '
-        '(every depth in the thorough tier, probe ends over-sampled, alone and on a noise+stripe background). A case is distinct by its full input; non-trivial when it has >= 2 channels.')
+        '(every depth in the thorough tier, probe ends over-sampled, alone and on a noise+stripe background). About half of the twin cases and 40 (300) generated ones are run as call sequences on the same argument objects: f, f, other library calls (agc / kfilt / fk / car / interpolate / destripe / destripe_lfp / fshift on their own arrays), f, then fshift on the same array; every result must be the one of the original values and the last one is what the model is compared with. A case is distinct by its full input; non-trivial when it has >= 2 channels.')
 ASSUMPTIONS = [
     'padding arguments with ntr_pad > number of channels are outside the model (NumPy returns another shape there); never generated',
     'with channel groups kfilt filters every group with ntr_pad=0, ntr_tap=None (what the code does); the property names filter, gain-control and operator settings only, '
@@ -49,6 +49,10 @@ ASSUMPTIONS = [
     'LFP stripes are bursts of >= 2048 samples (the 0.5 Hz band-pass transient of a stationary stripe fills shorter windows)',
     'the oracle builds the stripes with the documented ADC timing (12 channels/13 cycles NP1 and NPultra, 16/16 NP2), not with the repository table',
     'agc is compared through kfilt\'s calling convention (si=1, integer window length) and the default wl=0.5/si=0.002; float comparisons use 1e-9 x scale',
+    'the unchanged code overwrites the array it is given in agc (and returns that same array), and in kfilt / fk when gain control is on and no collection is given '
+    '(known finding agc-inplace, DESIGN §8): the model describes the values returned; call sequences restore exactly these arguments before every call and make no follow-up '
+    'call on them. For every other argument a sequence [f, f, other library calls, f, fshift(x, 1)] on the same objects must keep returning the results of the original values; '
+    'bit-identity of arguments and aliasing of results are recorded as tags only',
     'agc with epsilon > 0 (theorem hypothesis; the default is 1e-8); outside-brain oracle uses labels 0/3 only (bad channels next to outside ones use them as interpolation donors: C15)',
 ]
 TRUSTED = [
@@ -126,6 +130,188 @@ def _cmp_arrays(ctx, op, desc, impl, model_ans, shape, scale, nontrivial=True, t
     k = int(np.argmax(np.abs(np.nan_to_num(impl - m, nan=np.inf))))
     return ctx.compare(op, desc, f'ok {_summary(impl)} worst@{k}={impl.ravel()[k]!r}', f'ok {_summary(m)} worst@{k}={m.ravel()[k]!r}',
                        nontrivial=nontrivial, tags=tags)
+
+
+# ---------------------------------------------------------------------------------------------
+# call sequences: the Lean model is a function of its arguments, so the implementation must behave like one for a user who
+# calls it repeatedly on the same objects, or mixes it with other functions of the library.  `run_sequence` executes a concrete
+# call sequence on live objects and reports a problem only through its property-level consequence: a RESULT that is not the
+# result belonging to the ORIGINAL argument values.  (Whether an argument is bit-identical after a call, or whether a result
+# aliases an internal buffer, is recorded as information only — no property of C05 speaks about it.)
+# ---------------------------------------------------------------------------------------------
+import copy
+
+DEFAULT_STEPS = ['call', 'call', 'interleave', 'call', 'follow-up']
+
+
+def _fn(name):
+    from ibldsp import voltage, fourier
+    return {'car': voltage.car, 'agc': voltage.agc, 'kfilt': voltage.kfilt, 'fk': voltage.fk, 'destripe': voltage.destripe,
+            'destripe_lfp': voltage.destripe_lfp, 'fshift': fourier.fshift}[name]
+
+
+def _enc(o):
+    if isinstance(o, np.ndarray):
+        return {'__nd__': o.tolist(), 'dtype': str(o.dtype)}
+    if isinstance(o, dict):
+        return {str(k): _enc(v) for k, v in o.items()}
+    if isinstance(o, (list, tuple)):
+        return [_enc(v) for v in o]
+    if isinstance(o, np.generic):
+        return o.item()
+    return o
+
+
+def _dec(o):
+    if isinstance(o, dict):
+        if '__nd__' in o:
+            return np.array(o['__nd__'], dtype=o['dtype'])
+        return {k: _dec(v) for k, v in o.items()}
+    if isinstance(o, list):
+        return [_dec(v) for v in o]
+    return o
+
+
+def _diff(a, b, path='arg'):
+    """first place where object `a` is not bit-identical to `b`, or None"""
+    if isinstance(b, np.ndarray):
+        if not isinstance(a, np.ndarray) or a.dtype != b.dtype or a.shape != b.shape:
+            return f'{path}: type/shape/dtype differ'
+        if a.tobytes() != b.tobytes():
+            af, bf = a.astype(float).ravel(), b.astype(float).ravel()
+            k = int(np.argmax((af != bf) & ~(np.isnan(af) & np.isnan(bf)))) if a.size else 0
+            return f'{path}: element {k} is {a.ravel()[k]!r}, expected {b.ravel()[k]!r}'
+        return None
+    if isinstance(b, dict):
+        if not isinstance(a, dict) or list(a.keys()) != list(b.keys()):
+            return f'{path}: keys {list(a.keys()) if isinstance(a, dict) else type(a).__name__}, expected {list(b.keys())}'
+        for k in b:
+            d = _diff(a[k], b[k], f'{path}[{k!r}]')
+            if d:
+                return d
+        return None
+    if isinstance(b, (list, tuple)):
+        if not isinstance(a, type(b)) or len(a) != len(b):
+            return f'{path}: is {a!r}, expected {b!r}'
+        for k, (u, v) in enumerate(zip(a, b)):
+            d = _diff(u, v, f'{path}[{k}]')
+            if d:
+                return d
+        return None
+    if isinstance(b, float) and b != b:
+        return None if (isinstance(a, float) and a != a) else f'{path}: is {a!r}, expected nan'
+    return None if (type(a) is type(b) and a == b) else f'{path}: is {a!r}, expected {b!r}'
+
+
+def _documented_inplace(name, args, kwargs):
+    """positions of the arguments the UNCHANGED code overwrites (DESIGN §8, ASSUMPTIONS, known finding `agc-inplace`): agc works in place on x
+    (`x[~dead] = x / gain`, and returns that x); kfilt / fk call agc on their own x when gain control is on and no collection is given
+    (with a collection x[sel] is a copy).  Exactly this class is excluded: before every call of a sequence these arguments get their
+    original values back (same object), and no follow-up call is made on them."""
+    if name == 'agc':
+        return [0]
+    if name in ('kfilt', 'fk') and kwargs.get('collection') is None:
+        lagc = kwargs.get('lagc', 300 if name == 'kfilt' else 0.5)
+        if lagc:
+            return [0]
+    return []
+
+
+def _interleave():
+    """Other functions of the library between two identical calls, each working (some of them in place) on its OWN arrays."""
+    from ibldsp import voltage, fourier
+    import neuropixel
+    r = np.random.default_rng(20260929)
+    voltage.agc(r.normal(size=(6, 16)), wl=3.0, si=1.0)
+    voltage.kfilt(r.normal(size=(14, 8)), lagc=3, ntr_pad=2)
+    voltage.fk(r.normal(size=(6, 8)), si=0.002, dx=1, vbounds=[1, 100], lagc=0.01, ntr_pad=1)
+    voltage.fk(r.normal(size=(8, 8)), si=1.0, dx=1.0, vbounds=[1, 100], lagc=None, kfilt={'bounds': [0.0, 0.2], 'btype': 'highpass'})
+    voltage.car(r.normal(size=(5, 7)), collection=np.array([0, 1, 0, 1, 1]), operator='average')
+    voltage.interpolate_bad_channels(r.normal(size=(8, 4)), np.array([0, 1, 0, 0, 2, 0, 3, 0]), np.zeros(8), np.arange(8.) * 20)
+    for ver, nsh in VERSIONS:
+        h = neuropixel.trace_header(version=ver, nshank=nsh)
+        voltage.destripe(r.normal(size=(20, 24)), 30000, h={k: np.asarray(v)[:20] for k, v in h.items()},
+                         k_kwargs={'ntr_pad': 2, 'ntr_tap': 0, 'lagc': 5, 'butter_kwargs': {'N': 3, 'Wn': 0.01, 'btype': 'highpass'}},
+                         channel_labels=np.array([0] * 17 + [1, 3, 3]))
+    voltage.destripe_lfp(r.normal(size=(384, 24)), 2500)
+    fourier.fshift(r.normal(size=(3, 9)), np.array([0.5, 0.25, 0.0]))
+    fourier.fscale(8, 1.0)
+    fourier.convolve(r.normal(size=(2, 9)), np.hanning(3), mode='same')
+
+
+def run_sequence(name, args, kwargs, steps=None, info=None):
+    """Run `steps` with the SAME argument objects.  Returns (results, problem).  results = copies of what each call returned.
+    problem = None, or the first RESULT that is not the one belonging to the original argument values:
+      * a repeated call (same objects, possibly after other library calls) not returning what call #1 returned;
+      * follow-up: `fourier.fshift(x, 1)` on an array argument after the calls not returning `fshift(original x, 1)`.
+    `info` (list) receives informational notes (arguments found modified) that are never a problem by themselves."""
+    from ibldsp import fourier
+    fn = _fn(name)
+    steps = list(steps or DEFAULT_STEPS)
+    inplace = _documented_inplace(name, args, kwargs)
+    snap_args, snap_kw = copy.deepcopy(args), copy.deepcopy(kwargs)
+    results, ncall, hist = [], 0, []
+    for st in steps:
+        if st == 'call':
+            for k in inplace:
+                np.copyto(args[k], snap_args[k])
+            ncall += 1
+            hist.append(f'{name}#{ncall}')
+            res = copy.deepcopy(fn(*args, **kwargs))
+            if info is not None:
+                for k, (a, b) in enumerate(zip(args, snap_args)):
+                    if k not in inplace and _diff(a, b):
+                        info.append(f'positional argument {k} modified by call #{ncall}')
+                if _diff(kwargs, snap_kw):
+                    info.append(f'keyword argument modified by call #{ncall}')
+            if results:
+                d = _diff(res, results[0], 'result')
+                if d:
+                    return results + [res], (f'sequence [{" ; ".join(hist)}] on the same argument objects: call #{ncall} does not return what call #1 '
+                                             f'returned for these arguments — {d}')
+            results.append(res)
+        elif st == 'interleave':
+            hist.append('other library calls on their own arrays')
+            _interleave()
+        elif st == 'follow-up':
+            for k, (a, b) in enumerate(zip(args, snap_args)):
+                if k in inplace or not (isinstance(a, np.ndarray) and a.dtype.kind == 'f' and a.ndim in (1, 2) and a.shape[-1] >= 2):
+                    continue
+                got, want = fourier.fshift(a, 1.0), fourier.fshift(b.copy(), 1.0)
+                d = _diff(got, want, 'result')
+                if d:
+                    return results, (f'sequence [{" ; ".join(hist)} ; fourier.fshift(x, 1)] on the same array x: fshift does not return the shifted '
+                                     f'ORIGINAL x any more — {d} ({name} changed the array it was given)')
+    return results, None
+
+
+def _seq_call(ctx, rng, name, args, kwargs, p=0.5):
+    """What the twin sections use instead of a plain call: runs a call sequence (probability p) or a single call, reports property-level
+    consequences of carried state, and returns the result of the LAST call — which the caller compares with the Lean model of the original
+    values (so the model is compared with a result obtained after repeated / interleaved use of the same objects)."""
+    steps = DEFAULT_STEPS if rng.random() < p else ['call']
+    spec = {'fn': name, 'args': _enc(args), 'kwargs': _enc(kwargs), 'steps': steps}
+    info = []
+    results, prob = run_sequence(name, args, kwargs, steps=steps, info=info)
+    ctx.compare('sequence', {'op': 'sequence', **spec}, 'consistent' if prob is None else 'violated: ' + prob, 'consistent',
+                tags=('sequence', 'sequence-' + name, 'repeated+interleaved+follow-up' if len(steps) > 1 else 'single-call',
+                      'documented-inplace-x' if _documented_inplace(name, args, kwargs) else 'x-not-documented-inplace')
+                     + (('info:argument-modified',) if info else ()))
+    if prob is not None:
+        ctx.__dict__.setdefault('_purity_fails', []).append((spec, prob))
+    return results[-1]
+
+
+def oracle_sequence(i):
+    """a user who calls a function of the destriping chain repeatedly on the same objects, with other library calls in between, and then uses
+    the same array with another function, gets every time the result that belongs to the original values (known exclusion: x of agc, and of
+    kfilt / fk without collection when gain control is on, is overwritten by the unchanged code)"""
+    args, kwargs = _dec(i['args']), _dec(i['kwargs'])
+    try:
+        _, prob = run_sequence(i['fn'], args, kwargs, steps=i.get('steps'))
+    except (ValueError, AssertionError):
+        return None          # the function rejects these arguments outright: nothing to repeat
+    return prob
 
 
 # ---------------------------------------------------------------------------------------------
@@ -314,7 +500,7 @@ def _twin_part(ctx):
         kw = {} if coll is None else {'collection': coll}
         if rng.random() < 0.3:
             kw.update(ntr_pad=60, ntr_tap=0, lagc=None)         # destripe passes its k_kwargs to car, which ignores them
-        y = voltage.car(x.copy(), operator=pyop, **kw)
+        y = _seq_call(ctx, rng, 'car', [x.copy()], dict(operator=pyop, **kw))
         desc = {'op': 'car', 'operator': pyop, 'nc': nc, 'ns': ns, 'collection': None if coll is None else coll.tolist(), 'x': x.tolist()}
         add(f'spatial {nc} {ns} car {op} {_coll_tok(coll)} {_bits(x)}',
             lambda ans, y=y, desc=desc, x=x, nc=nc, ns=ns, t=(xtag, ctag, 'car-' + op): _cmp_arrays(
@@ -329,7 +515,11 @@ def _twin_part(ctx):
         if eps == 0.0 and xtag in ('dead-rows', 'sparse', 'int-ties'):
             eps = 1e-8                      # 0/0 on all-zero stretches is outside the property (epsilon > 0)
         xin = x.copy()
-        d, g = voltage.agc(xin, wl=lagc, si=1.0, epsilon=eps)
+        d, g = _seq_call(ctx, rng, 'agc', [xin], dict(wl=lagc, si=1.0, epsilon=eps))
+        xin2 = x.copy()
+        d2, _ = voltage.agc(xin2, wl=lagc, si=1.0, epsilon=eps)     # information only: does agc still overwrite / return its argument?
+        ctx.case({'op': 'agc in-place behaviour', 'nc': nc, 'ns': ns, 'lagc': lagc}, nontrivial=False,
+                 tags=('info:agc-returns-its-argument' if d2 is xin2 else 'info:agc-returns-a-new-array',))
         dead = (np.sum(g, axis=1) == 0).astype(int)
         desc = {'op': 'agc', 'nc': nc, 'ns': ns, 'lagc': lagc, 'epsilon': eps, 'x': x.tolist()}
 
@@ -371,7 +561,8 @@ def _twin_part(ctx):
         if coll is not None:
             kw['collection'] = coll
         try:
-            y = voltage.kfilt(x.copy(), **kw)
+            xarg = x.copy()
+            y = _seq_call(ctx, rng, 'kfilt', [xarg], kw)
         except ValueError as e:
             y = 'err ValueError'
         sizes = [s + (0 if coll is not None else 2 * pad) for s in _group_sizes(coll, nc)]
@@ -398,11 +589,11 @@ def _twin_part(ctx):
         if any(s < max(kw['ntr_pad'], 1) for s in _group_sizes(coll, nc)):
             kw['ntr_pad'] = 0
         try:
-            y = voltage.fk(x.copy(), collection=coll, **kw)
+            y = _seq_call(ctx, rng, 'fk', [x.copy()], dict(collection=coll, **kw))
             tbl = []
             for c in np.unique(coll):
                 xin = x[coll == c, :].copy()
-                yg = voltage.fk(xin.copy(), collection=None, **kw)
+                yg = _seq_call(ctx, rng, 'fk', [xin.copy()], dict(collection=None, **kw), p=0.2)
                 tbl.append(f'{xin.shape[0]}|{_bits(xin)}|{_bits(yg)}')
         except Exception as e:   # degenerate settings (not part of the property): skip
             continue
@@ -417,7 +608,7 @@ def _twin_part(ctx):
         n = int(rng.integers(2, 34))
         r = rng.normal(size=n) * float(10.0 ** rng.integers(-3, 3))
         s = float(rng.choice([0.0, 1.0, -1.0, 0.5, 1 / 13, 11 / 13, 15 / 16, 7 / 16, rng.uniform(-3, 3)]))
-        y = fourier.fshift(r.copy(), s)
+        y = _seq_call(ctx, rng, 'fshift', [r.copy(), s], {})
         desc = {'op': 'fshift', 'n': n, 's': s, 'x': r.tolist()}
         add(f'fshift {n} {_bits([s])} {_bits(r)}',
             lambda ans, y=y, desc=desc, r=r, n=n: _cmp_arrays(ctx, 'fshift', desc, y, ans, (n,), np.max(np.abs(r)), nontrivial=n > 1,
@@ -437,7 +628,7 @@ def _twin_part(ctx):
         nc = int(rng.integers(padlen + 2, padlen + 14)) if kfilter else int(rng.integers(3, 20))
         ns = int(rng.integers(23, 34)) if lfp else int(rng.integers(14, 30))
         off = int(rng.choice([0, 0, 2, 24, 100, 384 - nc]))
-        h = {k: np.asarray(v)[off:off + nc] for k, v in h0.items()}
+        h = {k: np.array(np.asarray(v)[off:off + nc]) for k, v in h0.items()}
         x, xtag = _gen_matrix(rng, nc, ns)
         if rng.random() < 0.5:
             labels = rng.choice([0, 0, 0, 0, 1, 2, 3, 3], size=nc)
@@ -478,11 +669,11 @@ def _twin_part(ctx):
         noshift = rng.random() < 0.15
         try:
             if lfp and not noshift and kk == {'ntr_pad': 60, 'ntr_tap': 0, 'lagc': None}:
-                y = voltage.destripe_lfp(x.copy(), fs, h=h, channel_labels=labels, k_filter=False)
+                y = _seq_call(ctx, rng, 'destripe_lfp', [x.copy(), fs], dict(h=h, channel_labels=labels, k_filter=False))
                 fn = 'destripe_lfp'
             else:
-                y = voltage.destripe(x.copy(), fs, h=h, neuropixel_version=None if noshift else 1, butter_kwargs=bt, k_kwargs=kk,
-                                     channel_labels=labels, k_filter=kfilter)
+                y = _seq_call(ctx, rng, 'destripe', [x.copy(), fs], dict(h=h, neuropixel_version=None if noshift else 1, butter_kwargs=bt, k_kwargs=kk,
+                                                                         channel_labels=labels, k_filter=kfilter))
                 fn = 'destripe'
         except Exception as e:
             y = 'err ' + type(e).__name__
@@ -716,7 +907,7 @@ def oracle_agc(i):
 
 
 ORACLES = {'stripe': oracle_stripe, 'spike': oracle_spike, 'outside': oracle_outside, 'center': oracle_center,
-           'groups': oracle_groups, 'agc': oracle_agc}
+           'groups': oracle_groups, 'agc': oracle_agc, 'sequence': oracle_sequence}
 EXPECTED = {
     'stripe': 'C05: a disturbance hitting all channels at the same instant (recorded with the ADC delays) is attenuated by >= 40 dB',
     'spike': 'C05: a spike confined to <= 3 neighbouring channels keeps >= 90 % of its high-passed amplitude',
@@ -724,6 +915,8 @@ EXPECTED = {
     'center': 'C05: referencing leaves a zero median (or mean, as requested) at every sample within each channel group',
     'groups': 'C05: filtering with channel groups equals filtering each group on its own with the same filter / gain-control / operator settings',
     'agc': 'C05: gain control returns data and gain whose product is the input',
+    'sequence': 'C05 speaks about functions of their inputs: every call of a sequence on the same argument objects (repeated, interleaved with other '
+                'library calls, followed by another function on the same array) returns the result that belongs to the ORIGINAL argument values',
 }
 
 
@@ -844,7 +1037,61 @@ def _gen_agc(rng, small=False):
     return {'wl': wl, 'si': si, 'epsilon': 1e-8, 'x': x.tolist()}
 
 
-GENS = {'stripe': _gen_stripe, 'spike': _gen_spike, 'outside': _gen_outside, 'center': _gen_center, 'groups': _gen_groups, 'agc': _gen_agc}
+def _gen_sequence(rng, small=False):
+    import neuropixel
+    name = str(rng.choice(['car', 'car', 'kfilt', 'fk', 'agc', 'destripe', 'destripe', 'destripe_lfp', 'fshift']))
+    if small and name in ('destripe', 'destripe_lfp', 'kfilt'):
+        name = 'car'
+    if name == 'car':
+        nc, ns = (3, 2) if small else (int(rng.integers(2, 10)), int(rng.integers(2, 7)))
+        x, _ = _gen_matrix(rng, nc, ns)
+        coll, _ = _gen_collection(rng, nc)
+        args, kw = [x], {'operator': str(rng.choice(['median', 'average']))}
+        if coll is not None:
+            kw['collection'] = coll
+    elif name == 'kfilt':
+        nc, ns = int(rng.integers(13, 20)), int(rng.integers(2, 6))
+        x, _ = _gen_matrix(rng, nc, ns)
+        args, kw = [x], {'ntr_pad': int(rng.choice([0, 2])), 'ntr_tap': 0, 'lagc': [None, 3, 300][int(rng.integers(0, 3))],
+                         'butter_kwargs': {'N': 3, 'Wn': 0.01, 'btype': 'highpass'}}
+    elif name == 'fk':
+        n = 4 if small else int(rng.integers(4, 9))
+        x, _ = _gen_matrix(rng, n, n)                       # square, si == dx: both frequency scales have the same arguments
+        args, kw = [x], {'si': 1.0, 'dx': 1.0, 'vbounds': [0.2, 2.0], 'btype': str(rng.choice(['highpass', 'lowpass'])), 'ntr_pad': 0, 'ntr_tap': None,
+                         'lagc': [None, 0.5][int(rng.integers(0, 2))]}
+        if rng.random() < 0.5:
+            kw['collection'] = np.arange(n) % 2
+    elif name == 'agc':
+        nc, ns = (1, 4) if small else (int(rng.integers(1, 5)), int(rng.integers(2, 30)))
+        x, _ = _gen_matrix(rng, nc, ns)
+        args, kw = [x], {'wl': float(rng.choice([3.0, 10.0])), 'si': 1.0}
+    elif name == 'fshift':
+        n = 4 if small else int(rng.integers(2, 20))
+        args, kw = [rng.normal(size=n), float(rng.choice([0.5, 1.0, 7 / 13]))], {}
+    else:
+        lfp = name == 'destripe_lfp'
+        ns = int(rng.integers(23, 30))
+        if rng.random() < 0.5:                               # the default header path: destripe builds h from neuropixel.trace_header itself
+            x, _ = _gen_matrix(rng, 384, ns)
+            kw = {'k_filter': bool(rng.random() < 0.5)}
+            if not lfp:
+                kw['neuropixel_version'] = [1, 2][int(rng.integers(0, 2))]
+        else:
+            ver, nsh = VERSIONS[int(rng.integers(0, len(VERSIONS)))]
+            nc = int(rng.integers(14, 24))
+            x, _ = _gen_matrix(rng, nc, ns)
+            h = {k: np.array(np.asarray(v)[:nc]) for k, v in neuropixel.trace_header(version=ver, nshank=nsh).items()}
+            lab = np.zeros(nc, int)
+            lab[int(rng.integers(1, nc - 1))] = 1
+            lab[nc - 1] = 3
+            kw = {'h': h, 'channel_labels': lab, 'k_filter': False}
+            if not lfp:
+                kw['k_kwargs'] = {'operator': 'median'}
+        args = [x, 2500 if lfp else 30000]
+    return {'fn': name, 'args': _enc(args), 'kwargs': _enc(kw), 'steps': list(DEFAULT_STEPS)}
+
+
+GENS = {'sequence': _gen_sequence, 'stripe': _gen_stripe, 'spike': _gen_spike, 'outside': _gen_outside, 'center': _gen_center, 'groups': _gen_groups, 'agc': _gen_agc}
 
 
 def _oracle_part(ctx):
@@ -860,12 +1107,13 @@ def _oracle_part(ctx):
             fails.append((kind, inp, r))
         return r
 
-    for kind, n in (('center', ctx.n(60, 600)), ('groups', ctx.n(60, 500)), ('agc', ctx.n(40, 400)), ('outside', ctx.n(30, 250))):
+    for kind, n in (('center', ctx.n(60, 600)), ('groups', ctx.n(60, 500)), ('agc', ctx.n(40, 400)), ('outside', ctx.n(30, 250)),
+                    ('sequence', ctx.n(40, 300))):
         for _ in range(n):
             inp = GENS[kind](rng)
             tags = ('law-' + kind,)
-            if kind == 'groups':
-                tags += ('law-groups-' + inp['fn'],)
+            if kind in ('groups', 'sequence'):
+                tags += (f'law-{kind}-' + inp['fn'],)
             run(kind, inp, tags)
     att = {}
     for k in range(ctx.n(48, 400)):
@@ -903,6 +1151,8 @@ def correspondence(ctx):
 # failing-input search
 # ---------------------------------------------------------------------------------------------
 def _size(kind, inp):
+    if kind == 'sequence':
+        return (0, int(sum(np.asarray(a['__nd__']).size for a in inp['args'] if isinstance(a, dict) and '__nd__' in a)))
     if 'x' in inp:
         return (0, int(np.asarray(inp['x']).size))
     return (1, len(inp.get('freqs', [])) + inp.get('nch', 0) + (5 if inp.get('bg_seed') is not None else 0)
@@ -945,13 +1195,15 @@ def search(ctx, reasons):
 
     for kind, inp, r in getattr(ctx, '_oracle_fails', [])[:50]:
         found.append((_size(kind, inp), kind, inp, r))
+    for spec, r in getattr(ctx, '_purity_fails', [])[:50]:
+        found.append((_size('sequence', spec), 'sequence', spec, r))
     for m in ctx.mismatches[:60]:
-        if m['op'].startswith('oracle-'):
+        if m['op'].startswith('oracle-') or m['op'] == 'sequence':
             continue
         for kind, inp in _from_mismatch(m):
             tryit(kind, inp)
     # small structured sweep of every algebraic clause (smallest inputs first)
-    for kind in ('center', 'groups', 'agc', 'outside'):
+    for kind in ('center', 'groups', 'agc', 'outside', 'sequence'):
         if any(f[1] == kind and f[0] <= (0, 40) for f in found):
             continue
         for small in (True, False):
@@ -989,6 +1241,18 @@ def search(ctx, reasons):
     return {'input': {'oracle': kind, **inp}, 'observed': r, 'expected': EXPECTED[kind],
             'how': f"python (PYTHONPATH=harness:$IBL_REPO/src): from props import c05; c05.run_oracle('{kind}', input)  — input without the 'oracle' key; "
                    f"see oracle_{kind} in harness/props/c05.py for the construction of the arrays"}
+
+
+def known_findings(ctx):
+    def agc_inplace():
+        # kfilt (gain control on, no collection) followed by car on the SAME array: car no longer sees the original values
+        from ibldsp import voltage
+        r = np.random.default_rng(5)
+        x = r.normal(size=(14, 6))
+        want = voltage.car(x.copy())
+        voltage.kfilt(x, lagc=3)
+        return bool(np.max(np.abs(voltage.car(x) - want)) > 1e-9)
+    return {'agc-inplace': agc_inplace}
 
 
 def replay(ctx, rep):
